@@ -236,19 +236,19 @@ def steady_state_transport_solver(
 
         # solve degenerated problem for (n,m) = (0,0)
         # with trapezoidal rule
-        lvl = 0
         tfftp00 = p000
 
         for i in range(nz - 1):
 
-            if i in levels:
-                tfftp[lvl, 0, 0] = tfftp00
-                lvl += 1
+            for lvl in range(nlvls):
+                if levels[lvl] == i:
+                    tfftp[lvl, 0, 0] = tfftp00
 
             tfftp00 = tfftp00 - tfftq0[0, 0] * dz[i] * (0.5 / Kz[i] + 0.5 / Kz[i + 1])
 
-        if nz - 1 in levels:
-            tfftp[lvl, 0, 0] = tfftp00
+        for lvl in range(nlvls):
+            if levels[lvl] == nz - 1:
+                tfftp[lvl, 0, 0] = tfftp00
 
     # shift green function in Fourier space to measurement point
     if footprint:
@@ -351,14 +351,12 @@ def ivp_solver(fftpq, profiles, z, levels, Lx, Ly):
     fftp = np.zeros((nlvls, nxy), dtype=np.complex128)
     fftq = np.zeros((nlvls, nxy), dtype=np.complex128)
 
-    lvl = 0
-
     for i in range(nz - 1):
 
-        if i in levels:
-            fftp[lvl, ...] = fftpi
-            fftq[lvl, ...] = fftqi
-            lvl += 1
+        for lvl in range(nlvls):
+            if levels[lvl] == i:
+                fftp[lvl, ...] = fftpi
+                fftq[lvl, ...] = fftqi
 
         Ti = -(Kx[i] * Lx**2 + Ky[i] * Ly**2) - 1j * u[i] * Lx - 1j * v[i] * Ly
         Kzinv = 1.0 / Kz[i]
@@ -373,8 +371,9 @@ def ivp_solver(fftpq, profiles, z, levels, Lx, Ly):
         fftqi = c * fftpi + d * fftqi
         fftpi = dum
 
-    if nz - 1 in levels:
-        fftp[lvl, ...] = fftpi
-        fftq[lvl, ...] = fftqi
+    for lvl in range(nlvls):
+        if levels[lvl] == nz - 1:
+            fftp[lvl, ...] = fftpi
+            fftq[lvl, ...] = fftqi
 
     return fftpi, fftqi, fftp, fftq
